@@ -408,6 +408,34 @@ def joinCore (len : Nat) (args : List Val) : M σ Ret := fun s =>
     let r := (List.range (len - 1)).foldl (fun r k => (r ++ sep) ++ str (k + 1)) (str 0)   -- 7–10
     .ok (Ret.val (.str r)) s                                                         -- 11
 
+/-- §15.4.4.3 steps 7–8 (and 10.c–d) for one element: "" for undefined and null; otherwise elementObj = ToObject(element),
+    func = elementObj.[[Get]]("toLocaleString"), TypeError unless callable, "the result of calling the [[Call]] internal
+    method of func providing elementObj as the this value and an empty arguments list" (`O.locale e []`); the result
+    takes part in a string concatenation, i.e. it is converted with ToString (ES2015 says so explicitly) -/
+def localeElement (e : Val) : M σ (List Nat) :=
+  match e with
+  | .undef => pure []
+  | .null => pure []
+  | e => do
+    let r ← O.locale e []
+    let p ← O.conv r
+    pure (E.ts p)
+
+/-- §15.4.4.3 step 10.a–e for one k -/
+def localeNext (k : Nat) (r : List Nat) : M σ (List Nat) := fun s =>
+  let sr := r ++ [44]                                                               -- a: S = R + separator
+  let nextElement := O.get s k                                                      -- b
+  (do let r' ← localeElement O E nextElement                                         -- c, d
+      pure (sr ++ r')) s                                                            -- e
+
+/-- §15.4.4.3 toLocaleString, steps 4–11 (the separator is the implementation-defined ",") -/
+def toLocaleStringCore (len : Nat) : M σ Ret :=
+  if len = 0 then pure (Ret.val (.str []))                                           -- 5
+  else do
+    let r0 ← (fun s => localeElement O E (O.get s 0) s)                              -- 6–8
+    let r ← foldUp (localeNext O E) 1 (len - 1) r0                                   -- 9, 10
+    pure (Ret.val (.str r))                                                          -- 11
+
 /-- §15.4.4.4 step 5.b / 5.c for one item E -/
 def concatItem : CArg → List (Option Val)
   | .v x => [some x]          -- 5.c
@@ -635,6 +663,11 @@ def join (args : List Val) : M σ Ret := do
     value and an empty arguments list" -/
 def toStringS (_args : List Val) : M σ Ret := join O E []
 
+/-- §15.4.4.3: 2–3 len, then the elements in turn; the arguments of the call are not used -/
+def toLocaleStringS (_args : List Val) : M σ Ret := do
+  let len ← readLen O
+  toLocaleStringCore O E len
+
 /-- §15.4.4.16–22: 2–3 len, then 4 "if IsCallable(callbackfn) is false, throw a TypeError" -/
 def every (callable : Bool) : M σ Ret := do let len ← readLen O; everyCore O len callable
 def some_ (callable : Bool) : M σ Ret := do let len ← readLen O; someCore O len callable
@@ -663,6 +696,7 @@ def specOps (E : Env) : Ops St where
     (scriptedConv (put E) delete (fun o => toUint32 E (get o .length)))
   conv := scriptedConv (put E) delete (fun o => toUint32 E (get o .length))
   thisRaw := fun s => s.thisRaw
+  locale := scriptedLocale (put E) delete (fun o => toUint32 E (get o .length)) E
 
 /-- §15.4.5.1 step 3.c–d on an object-valued Desc.[[Value]]: newLen = ToUint32(Desc.[[Value]]) and then
     "if newLen is not equal to ToNumber(Desc.[[Value]]), throw a RangeError" — two conversions of the object -/
